@@ -228,11 +228,10 @@ theorem parseHostHeader_sub (b t d : Bytes) (ht : toAsciiLower t = toAsciiLower 
   simp [h1, h2]
 
 /-- a base domain of the configuration: the single one, or a member of a list accepted by
-    `MultiDomain::new` whose members do not overlap even when ASCII case is ignored (true of every
-    accepted list written in lower case, `pairwiseCI_of_lower`) -/
+    `MultiDomain::new` (its members then do not overlap even when ASCII case is ignored,
+    `pairwiseCI_of_accepted`) -/
 def ConfiguredDomain (cfg : HostCfg) (d : Bytes) : Prop :=
-  cfg = .single d ∨ ∃ ds, multiNew ds = .ok ds ∧ ds.Pairwise (fun a b => ¬ OverlapCI a b) ∧
-    d ∈ ds ∧ cfg = .multi ds
+  cfg = .single d ∨ ∃ ds, multiNew ds = .ok ds ∧ d ∈ ds ∧ cfg = .multi ds
 
 /-- the configured host parser resolves `b.t` (`t` = `d` up to case) to bucket `b` of base
     domain `d` -/
@@ -240,10 +239,11 @@ theorem parser_of_configured {cfg : HostCfg} {d : Bytes} (h : ConfiguredDomain c
     (ht : toAsciiLower t = toAsciiLower d)
     (hbnd : ∀ c ∈ t.head?, c.toNat < 128 ∨ 192 ≤ c.toNat) :
     ∃ parse, cfg.parser = some parse ∧ parse (b ++ dot :: t) = some ⟨d, some b⟩ := by
-  rcases h with rfl | ⟨ds, _, hp, hd, rfl⟩
+  rcases h with rfl | ⟨ds, hacc, hd, rfl⟩
   · exact ⟨singleParse d, rfl, by simp [singleParse, parseHostHeader_sub b t d ht hbnd]⟩
   · refine ⟨multiParse ds, rfl, ?_⟩
-    simp [multiParse, firstMatch_eq_of_mem hp hd (parseHostHeader_sub b t d ht hbnd)]
+    simp [multiParse, firstMatch_eq_of_mem (pairwiseCI_of_accepted hacc) hd
+      (parseHostHeader_sub b t d ht hbnd)]
 
 theorem boundary_of_headerToStrOk {b t : Bytes} (hs : headerToStrOk (b ++ dot :: t) = true) :
     ∀ c ∈ t.head?, c.toNat < 128 ∨ 192 ≤ c.toNat := by
